@@ -26,3 +26,89 @@ Example sloppy_phrase_on_example_index :
   sem_numbers (QPhrase 0 [[t_ab]; [t_ab]] 1) ex_sn = [2].
 Proof. exact ex_phrase_slop. Qed.
 Print Assumptions sloppy_phrase_on_example_index.
+
+(* ---- searcher_spec (DESIGN.md C07), proved node by node: each composite meets the iterator
+   contract of Search/SearchersProofsBase.v (Next returns the least member of its denotation at or
+   above the watermark, Advance n the least one at or above n, in strictly increasing order)
+   whenever its children do.  Full statement of searcher_spec:
+     for every searcher tree t over any snapshot, every script of Next / Advance n calls that starts
+     with Next and whose Advance targets are above the last number returned and never decrease
+     returns exactly the remaining members of filter (sem t), Advance n the least one >= n.
+   Proved here: the conjunction and the slice disjunction (any number of children, any min).
+   Not yet assembled into the tree theorem: boolean, heap disjunction, phrase, the leaves over
+   index/postings.go (validated by the script correspondence on every run). ---- *)
+From Bluge Require Import Search.SearchersProofsBase Search.SearchersProofsConj Search.SearchersProofsDisj Search.SearchersProofsBool Search.SearchersProofsLeaf.
+
+Theorem searcher_spec_conjunction_partial :
+  forall (C : Type) (cnext : C -> res (option dmatch * C)) (cadv : C -> Z -> res (option dmatch * C))
+         (CInv CFin : C -> (Z -> bool) -> Z -> Prop),
+    contract cnext cadv CInv CFin ->
+    forall (N : Z) (Ss : list (Z -> bool)) (lf : nat) (st : conj_st C) (lo : Z),
+      conj_inv C CInv CFin N Ss st lo -> (conj_fuel N (length Ss) <= lf)%nat ->
+      (exists r st', conj_next C cnext cadv lf st = Ok (r, st') /\ conj_exact_post C CInv CFin N Ss lo r st') /\
+      (forall n, lo <= n ->
+         exists r st', conj_advance C cnext cadv lf st n = Ok (r, st') /\ conj_exact_post C CInv CFin N Ss n r st').
+Proof. exact conj_contract. Qed.
+Print Assumptions searcher_spec_conjunction_partial.
+
+Theorem searcher_spec_disjunction_slice_partial :
+  forall (C : Type) (cnext : C -> res (option dmatch * C)) (cadv : C -> Z -> res (option dmatch * C))
+         (CInv CFin : C -> (Z -> bool) -> Z -> Prop),
+    contract cnext cadv CInv CFin ->
+    forall (N : Z) (Ss : list (Z -> bool)) (dmin : Z) (lf : nat) (st : dsl_st C) (lo : Z),
+      dsl_inv C CInv CFin N Ss dmin st lo -> 0 <= lo -> (Z.to_nat N + 2 <= lf)%nat ->
+      (exists r st', dsl_next C cnext lf st = Ok (r, st') /\ dsl_exact_post C CInv CFin N Ss dmin lo r st') /\
+      (forall n, lo <= n ->
+         exists r st', dsl_advance C cnext cadv lf st n = Ok (r, st') /\ dsl_exact_post C CInv CFin N Ss dmin n r st').
+Proof. exact dsl_contract. Qed.
+Print Assumptions searcher_spec_disjunction_slice_partial.
+
+(* the boolean searcher, Next: for every shape (must / should / must-not present or not, any
+   should.Min()) and children that are exact for Next and forward Advance, Next returns the least
+   number at or above the watermark that every must clause matches (else: that the should
+   searcher returns), that the must-not searcher does not match and — with must clauses and
+   should.Min() <> 0 — that the should searcher matches; or reports that there is none and
+   sets `done`.  (Advance of a boolean nested below another searcher: not proved yet.) *)
+Theorem searcher_spec_boolean_next_partial :
+  forall (C : Type) (cnext : C -> res (option dmatch * C)) (cadv : C -> Z -> res (option dmatch * C))
+         (cmin : C -> Z) (CInv CFin : C -> (Z -> bool) -> Z -> Prop),
+    next_exact C cnext CInv CFin -> adv_exact C cadv CInv CFin ->
+    (forall c r c', cnext c = Ok (r, c') -> cmin c' = cmin c) ->
+    (forall c n r c', cadv c n = Ok (r, c') -> cmin c' = cmin c) ->
+    forall (N : Z) (Sm Ss Sn : option (Z -> bool)) (smin : Z) (lf : nat) (st : bool_st C) (lo : Z),
+      bool_inv C cmin CInv CFin N Sm Ss Sn smin st lo -> 0 <= lo -> (Z.to_nat N + 2 <= lf)%nat ->
+      exists r st', bool_next C cnext cadv cmin lf st = Ok (r, st') /\
+                    bool_exact_post C cmin CInv CFin N Sm Ss Sn smin lo r st'.
+Proof. exact bool_next_spec. Qed.
+Print Assumptions searcher_spec_boolean_next_partial.
+
+(* optimised_equal (partial: at the level of the per-segment document sets; the composition
+   with the term searcher over the rewritten lists is covered by the correspondence only).
+   Full statement: for every tree, run with the unadorned conjunction / disjunction rewrites and
+   the conjunction push-down enabled returns the same numbers as with them disabled. *)
+Theorem optimised_equal_partial :
+  (forall ls x, In x (pnums (inter_seg ls)) <-> ls <> [] /\ forall l, In l ls -> In x (pnums l)) /\
+  (forall ls x, In x (pnums (union_seg ls)) <-> exists l, In l ls /\ In x (pnums l)) /\
+  (forall (col : list (list posting)) (l : list posting) p,
+     In p (filter (fun p => forallb (fun l' => zmem (p_num p) (pnums l')) col) l) <->
+     In p l /\ forall l', In l' col -> In (p_num p) (pnums l')).
+Proof. exact (conj inter_seg_spec (conj union_seg_spec and_replace_filter_spec)). Qed.
+Print Assumptions optimised_equal_partial.
+
+(* the leaf: index/postings.go over several segments.  With offsets 0 = o_0 < o_1 < ... < N and
+   per-segment lists of increasing local numbers inside their segment (iters_ok), an iterator
+   that is exact from lo (PInv: the numbers visible from its segment offset on are exactly the
+   members of S at or above lo, the last number returned lies below lo) answers Next with the least
+   member >= lo and Advance n (lo <= n) with the least member >= n — found in the segment
+   sort.Search points to or, when that one is exhausted, in a later one — and stays exact from
+   that number + 1; after the end was reported (PFin) Advance reports it again. *)
+Theorem searcher_spec_postings_leaf_partial :
+  forall (offs : list Z) (N : Z),
+    (forall it S lo, PInv offs N it S lo ->
+       exists r it', pit_next it = Ok (r, it') /\ pit_post offs N S lo r it') /\
+    (forall it S lo n, PInv offs N it S lo -> lo <= n ->
+       exists r it', pit_advance it n = Ok (r, it') /\ pit_post offs N S n r it') /\
+    (forall it S lo n, PFin offs N it S lo -> lo <= n ->
+       exists it', pit_advance it n = Ok (None, it') /\ PFin offs N it' S lo).
+Proof. exact (fun offs N => conj (pit_next_exact offs N) (conj (pit_advance_exact offs N) (pit_fin_advance offs N))). Qed.
+Print Assumptions searcher_spec_postings_leaf_partial.
